@@ -183,3 +183,34 @@ Definition ecase_eqb (vr : variant) (chems : list chem) (cops : list cop) (cop_e
       && forallb (fun pc => mcache_eqb (mc_get (smc s) (fst pc)) (snd pc)) exp_mc
       && list_eqb vapproxb (hsp h) exp_sps
   end.
+
+(* ------------------------------------------------------------------ the same machine over the repaired configuration calls *)
+Definition estepc (clr : bool) (vr : variant) (h : hstate) (o : eop) : hstate * hobs :=
+  match o with
+  | EOp o => hstepc clr vr h o
+  | ESet _ _ _ => estep vr h o
+  end.
+
+Fixpoint erunc (clr : bool) (vr : variant) (h : hstate) (ops : list eop) : hstate * list hobs :=
+  match ops with
+  | [] => (h, [])
+  | o :: r => let (h', b) := estepc clr vr h o in let (h'', bs) := erunc clr vr h' r in (h'', b :: bs)
+  end.
+
+Definition ecasec_eqb (clr : bool) (vr : variant) (chems : list chem) (cops : list cop) (cop_errs : list (option err))
+           (ixs : list ixr) (sps : list vec) (ops : list eop) (exp_obs : list hobs)
+           (exp_table : list (string * target)) (absent : list string) (exp_comps exp_wcomps : list (string * vec))
+           (exp_cc : ccache) (exp_mc : list (list string * mcache)) (exp_sps : list vec) : bool :=
+  match compile chems with
+  | Err _ => false
+  | Ok c0 =>
+      let (c1, es) := cbuild c0 cops in
+      let (h, bs) := erunc clr vr (mkhs c1 (mkst [] [] ixs) sps) ops in
+      let c := hcf h in let s := hst h in
+      list_eqb (opt_eqb err_eqb) es cop_errs
+      && list_eqb hobs_eqb bs exp_obs
+      && table_agrees (tb c) exp_table absent && comps_agree (comps c) exp_comps && comps_agree (wcomps c) exp_wcomps
+      && ccache_eqb (scc s) exp_cc
+      && forallb (fun pc => mcache_eqb (mc_get (smc s) (fst pc)) (snd pc)) exp_mc
+      && list_eqb vapproxb (hsp h) exp_sps
+  end.
